@@ -80,6 +80,7 @@ namespace vh
 #include "vh_vm.h"
 #include "vh_sched.h"
 #include "vh_cfg.h"
+#include "vh_api.h"
 
 static std::string handle(const std::string& verb, const std::vector<std::string>& f)
 {
@@ -93,6 +94,7 @@ static std::string handle(const std::string& verb, const std::vector<std::string
         else if (verb == "start") { return vh::verb_start(f); }
         else if (verb == "eq") { return vh::verb_eq(f); }
         else if (verb == "cfg") { return vh::verb_cfg(f); }
+        else if (verb == "api") { return vh::verb_api(f); }
         else { return "bad-verb"; }
     }
     catch (const std::exception& ex)
